@@ -177,7 +177,8 @@ PROPS["C12"] = dict(
           "target (…/TnE); nesting (linked images, links inside lists/quotes/headers/pre), elements without href/src, widths 1..120. "
           "The rendering of String(width) is parsed (SGR stripped, whitespace and quote glyphs removed) into label and number tokens, "
           "bound with a stack; required: numbers are exactly 1..N, SelectLink(k) returns the target of the label bound to k, numbers "
-          "outside 1..N (0, -1, N+1, 1e9, int extremes) open nothing. One attachment in eight is a member whose label cannot be "
+          "outside 1..N (0, -1, N+1, 1e9, int extremes) open nothing; in a third of the cases another post with 1..24 links is parsed "
+          "and rendered between showing the item and selecting its numbers. One attachment in eight is a member whose label cannot be "
           "determined (no url and no name, or a name that is not a string): it must show its positional number next to the error text, "
           "without a label, and open its own url or nothing. Non-trivial: N >= 2 and (nested link, attachments, or width < 8). "
           "Distinct = distinct (kind, document, attachments, width)."),
@@ -293,7 +294,9 @@ PROPS["C03"] = dict(
           "the simulator's request log (<= budget+1 requests, each on the expected hop sequence, in order), equal answers for equal "
           "fetches within a history, and no plaintext connection. (Fuzz, thorough) raw bytes as the whole response: no crash, <= budget+1 "
           "requests, and a returned document implies the conditions the statement makes necessary (status 200-203, a blank line, at "
-          "least one and only tolerated Content-Type lines, a body starting with a JSON object equal to the document). Non-trivial: the fetched node is a redirect or its response is not "
+          "least one and only tolerated Content-Type lines, a body starting with a JSON object equal to the document). (Concurrent) 2..6 fetches of an acyclic world of slow redirecting URLs - two thirds of them with two URLs that "
+          "differ in the query only - started together through jtp.Get or client.FetchURL, then repeated one by one: every outcome is the "
+          "history-free reference's. Non-trivial: the fetched node is a redirect or its response is not "
           "the plain 200 + one JSON content type + object. Distinct = distinct (world, fetches)."),
     units=[
         rapid("Single", "TestSingle", 6000, 200000, config_toml=_NET + "cache_size = 128\n"),
@@ -327,7 +330,9 @@ PROPS["C04"] = dict(
     rule=("URLs assembled from hostile parts (scheme variants incl. http and other schemes aimed at a plaintext canary port; userinfo; "
           "authorities with trailing dot, empty/huge ports, embedded CR/LF; paths and queries with spaces, raw and %-encoded CR/LF/TAB/NUL, "
           "invalid escapes, non-ASCII, '..', fragments) used as user input, planted in served documents (inReplyTo, attributedTo, "
-          "audience, replies, first, items, id) and as Location headers; webfinger handles with hostile account and domain parts. "
+          "audience, replies, first, items, id) and as Location headers; webfinger handles with hostile account and domain parts, answered by webfinger documents that "
+          "advertise hostile media types (CR LF + header line, second request, token parameters); 200 answers carry validators, cookies and "
+          "other headers a client could echo, and a quarter of the url/handle cases run twice with the cache emptied in between. "
           "Oracle at the simulator for every accepted connection: TLS negotiated; bytes are exactly 'GET target HTTP/1.0 CRLF Host: "
           "authority CRLF Accept: constant CRLF CRLF' with nothing after; target starts with '/' and has no SP/CTL; Host designates "
           "the contacted listener; for clean URLs the target equals the one known by construction; the plaintext canary is never "
@@ -357,8 +362,9 @@ _C05CONF = "[network]\ntimeout_seconds = 1\ncache_size = 4\n"
 PROPS["C05"] = dict(
     pkg="c05",
     level="fault_enumeration",
-    rule=("corpus of six exchanges (actor; actor with trailing bytes; 40-item collection; 302->200; 301->302(relative)->200; webfinger "
-          "JRD -> actor). (Cuts) for every response of every entry and every byte offset k in [0, len+3] (quick: every 7th offset plus "
+    rule=("corpus of exchanges (actor; actor with trailing bytes / announced lengths; 40-item collection; paged collection; 302->200; "
+          "301->302(relative)->200; webfinger JRD -> actor; note with an author fetched inside; a boost carrying a full copy of a post "
+          "that lives on another host and is fetched from there). (Cuts) for every response of every entry and every byte offset k in [0, len+3] (quick: every 7th offset plus "
           "all line boundaries and the last brace): send k bytes then close, and send k bytes then reset. (Stalls) at every hop: no "
           "fault, TCP accepted without TLS, plaintext garbage, TLS then garbage, refused port, silence after 0 / 5 bytes / the status "
           "line / mid-headers / the headers / mid-body / all but the last byte, trickle (one byte per timeout/3) from three positions. "
@@ -421,7 +427,7 @@ PROPS["C11"] = dict(
     pkg="c11",
     level="exploration",
     rule=("0..5 synthetic sources (package-internal constructor) of 0..12 tagged items with timestamps from ten instants (ties "
-          "forced), missing timestamps, sorted and unsorted runs, failure items, sources that are absent or that "
+          "forced; neighbouring instants a nanosecond, a millisecond, part of a second, a second or hours apart), missing timestamps, sorted and unsorted runs, failure items, sources that are absent or that "
           "signal exhaustion only on the following call; request programs of 1..12 steps (n in 0..9) following "
           "the returned continuation, each step also asked twice and, for 'again' steps, asked for a different amount without "
           "advancing. Oracle: reference k-way merge (latest head first, ties to the source listed first); every answer equals the next "
@@ -481,7 +487,7 @@ PROPS["C09"] = dict(
           "embedded copy, Announce; reply to this post, reply through an alias URL that redirects to it, reply with a same-host author) "
           "or impostor (activity by another actor on the same or another host, actor missing or id-less, a Note in an outbox, a "
           "Tombstone, an id that merely has the owner's id as a prefix; reply to another post, to the same path on another host, without "
-          "parent, with a foreign-host author; an actor among replies; 404; wrong JSON type). Oracle: ground truth by construction — "
+          "parent, with a foreign-host author, with two authors one of whom is foreign; an actor among replies; 404; wrong JSON type). Oracle: ground truth by construction — "
           "the i-th harvested item shows entry i's unique token iff the entry is labelled legitimate and is an error item otherwise; "
           "the number of items equals the number of entries (nothing dropped, order kept). Non-trivial: the listing has at least one "
           "legitimate and one impostor entry. Distinct = distinct (listing, entries, paging)."),
